@@ -451,6 +451,10 @@ def core_program(rng, ticks=True):
             f, ty = g.lambda_(["int", "int"], "int", False, top, 2, True)
             forms.append(app("apply", f, app("list", lit(rng.randint(-5, 5)), lit(rng.randint(-5, 5)))))
             forms.append(app("apply", f, lit(rng.randint(-5, 5)), quote(vlist([vint(rng.randint(-5, 5))]))))
+            forms.append(app("apply", f, lit(rng.randint(-5, 5)), lit(rng.randint(-5, 5)), quote(NIL)))           # both arguments before the (empty) list
+            g3 = lam(["p", "q"], [app("list", var("p"), var("q"), var("more"))], rest="more")
+            forms.append(app("apply", g3, lit(1), lit(2), app("list", *[lit(k) for k in range(3, 3 + rng.randint(0, 3))])))
+            forms.append(app("apply", var("-"), lit(rng.randint(10, 20)), lit(rng.randint(1, 5)), app("list", lit(rng.randint(1, 5)))))
         else:
             if rng.random() < 0.4:
                 t_ = rng.choice(["int", "list", "bool"])
